@@ -187,6 +187,10 @@ func c02Gen(t *rapid.T) SeqCase {
 			steps = append(steps, afterGone(t, c02Keys, c02Step)...)
 			continue
 		}
+		if rapid.IntRange(0, 19).Draw(t, "retype") == 0 {
+			steps = append(steps, afterRetype(t, c02Keys, c02Step)...)
+			continue
+		}
 		steps = append(steps, c02Step(t))
 	}
 	return SeqCase{Steps: steps}
